@@ -844,8 +844,15 @@ def dump_one(f: TextIO, data: IOData):
     # Fill in some defaults (Cartesian) for angmom kinds if needed.
     angmom_kinds.setdefault(2, "c")
     angmom_kinds.setdefault(3, "c")
-    angmom_kinds.setdefault(4, "c")
-    angmom_kinds.setdefault(5, "c")
+    # The [9G] tag controls both g and h functions.
+    angmom_kinds.setdefault(4, angmom_kinds.get(5, "c"))
+    angmom_kinds.setdefault(5, angmom_kinds[4])
+    if angmom_kinds[4] != angmom_kinds[5]:
+        raise DumpError(
+            "Molden format does not support pure g combined with Cartesian h functions "
+            "or vice versa.",
+            f,
+        )
 
     # Write out the Cartesian/Pure conventions. What a messy format...
     if angmom_kinds[2] == "p":
